@@ -46,6 +46,7 @@ noncomputable instance realScalar : Scalar ℝ where
   log := Real.log
   pow := fun a b => a ^ b
   floor a := (⌊a⌋ : ℤ)
+  ceil a := (⌈a⌉ : ℤ)
   pi := Real.pi
   ofInt i := (i : ℝ)
   toInt a := if 0 ≤ a then ⌊a⌋ else ⌈a⌉
